@@ -30,7 +30,7 @@ def run(chk):
     ]
     proof_ok = mc.proof_stage(
         chk, requires=["FlacMeta.Props_C11", "FlacMeta.Pins"], theorems=THEOREMS, files=FILES,
-        e2e_theorems=["C11_sample_writer_metadata_read", "C11_byte_writer_metadata_read", "C11_channel_writer_metadata_read", "C11_presets_qualify", "C11_written_metadata_read_in_full", "C11_sample_writer_metadata_read_in_full", "C11_sample_writer_file_typed", "C11_end_to_end_nonvacuous"])
+        e2e_theorems=["C11_sample_writer_metadata_read", "C11_byte_writer_metadata_read", "C11_channel_writer_metadata_read", "C11_presets_qualify", "C11_written_metadata_read_in_full", "C11_sample_writer_metadata_read_in_full", "C11_sample_writer_file_typed", "C11_byte_writer_file_typed", "C11_channel_writer_file_typed", "C11_end_to_end_nonvacuous"])
 
     exe = mc.build_driver(chk) if proof_ok else None
     total_cases = bad_total = soft_total = 0
